@@ -339,7 +339,7 @@ pub fn def_text_of(p: &DefPlan) -> String {
 }
 
 pub fn plans(thorough: bool) -> Vec<DefPlan> {
-    let mut defs = definitions(if thorough { 3 } else { 2 }, true);
+    let mut defs = definitions(3, true);
     if thorough {
         // depth 4 over a single leaf type
         let known: std::collections::HashSet<String> = defs.iter().map(|d| print_definition(d, false)).collect();
@@ -520,7 +520,7 @@ pub fn run(tier: &str) -> Run {
         run.require("ifdata_cleanup patterns: exactly the invalid blocks removed", 1000);
     }
     run.require("ifdata_cleanup: exactly the valid blocks remain", 300);
-    run.rule = "programs = A2ML definitions from the generator (14 leaf types incl. all 10 scalars, char[n], enums with/without values, 1- and 2-dimensional arrays; arrays of enums / structs / arrays, sequences of arrays; structs; taggedstruct / taggedunion items in the forms tag, tag member, block, repeated, repeated block, tag (member)*; nesting depth <= 2 (thorough: <= 3, and <= 4 over the leaf type uint), no thinning; named type referenced later; top-level (member)*); per definition all instances of the enumerator (cap 8 / 24) under the supply modes in-file / built-in / both, and for the first instances every single-token deletion, duplication, replacement by another lexical class and appended token that keeps /begin-/end balanced, every block written as keyword item and every keyword item with its next 0..4 values written as block. Oracle: strict reference matcher accepts => ifdata_valid and payload tokens preserved (integer notation kept, floats at the precision of the type); lenient matcher rejects => load succeeds, ifdata_valid false, payload preserved; in between (identifier for string, over-long string, duplicate non-repeatable tag) don't care; reload equal; ifdata_cleanup() keeps exactly the valid blocks. Cleanup patterns: every element kind that can hold IF_DATA (11) x every sequence of <= 3 (thorough 4) blocks over {2 valid, 2 invalid payloads} x definition {in the file, built-in, absent}: after ifdata_cleanup() the model equals the model of the same document written without the invalid blocks, a second call changes nothing, the result reloads equal.".into();
+    run.rule = "programs = A2ML definitions from the generator (14 leaf types incl. all 10 scalars, char[n], enums with/without values, 1- and 2-dimensional arrays; arrays of enums / structs / arrays, sequences of arrays; structs; taggedstruct / taggedunion items in the forms tag, tag member, block, repeated, repeated block, tag (member)*; nesting depth <= 3 (thorough: also <= 4 over the leaf type uint), no thinning; named type referenced later; top-level (member)*); per definition all instances of the enumerator (cap 8 / 24) under the supply modes in-file / built-in / both, and for the first instances every single-token deletion, duplication, replacement by another lexical class and appended token that keeps /begin-/end balanced, every block written as keyword item and every keyword item with its next 0..4 values written as block. Oracle: strict reference matcher accepts => ifdata_valid and payload tokens preserved (integer notation kept, floats at the precision of the type); lenient matcher rejects => load succeeds, ifdata_valid false, payload preserved; in between (identifier for string, over-long string, duplicate non-repeatable tag) don't care; reload equal; ifdata_cleanup() keeps exactly the valid blocks. Cleanup patterns: every element kind that can hold IF_DATA (11) x every sequence of <= 3 (thorough 4) blocks over {2 valid, 2 invalid payloads} x definition {in the file, built-in, absent}: after ifdata_cleanup() the model equals the model of the same document written without the invalid blocks, a second call changes nothing, the result reloads equal.".into();
     run
 }
 
